@@ -823,3 +823,6 @@ func (w *World) EmitInit(cfg map[string]any) *Event {
 	w.refreshKeysets()
 	return w.emit("init", cfg, map[string]any{"ok": true})
 }
+
+// RefreshKeysets re-reads the keyset rows into the registry.
+func (w *World) RefreshKeysets() error { return w.refreshKeysets() }
